@@ -104,6 +104,8 @@ class Executor:
         self.n = 0
         self.crash_logs = []
 
+    count_alloc = False   # set by checks that need the executor's counting allocator (C07)
+
     def _run_once(self, jobs, threads, timeout_s, job_timeout_s):
         self.n += 1
         base = os.path.join(self.dir, "b%04d" % self.n)
@@ -111,6 +113,8 @@ class Executor:
             for j in jobs:
                 f.write(json.dumps(j, ensure_ascii=False) + "\n")
         env = dict(os.environ, RUST_BACKTRACE="0")
+        if self.count_alloc:
+            env["VERIF_COUNT_ALLOC"] = "1"
         try:
             p = subprocess.run(
                 [BIN, "exec", base + ".jobs", base + ".res", base + ".jrn", str(threads), str(job_timeout_s)],
